@@ -358,10 +358,10 @@ def rule_pivotflow(P) -> RuleResult:
     SELF, NODE = Sym('COMPILER'), Sym('SELECT')
     FIRST, SECOND = Sym('PIVOT_ROW_COLUMN'), Sym('PIVOT_BLOCK_COLUMN')
     queries = {}
-    for with_pivot in (True, False):
+    for with_pivot, ordered in ((True, True), (False, True), (True, False), (False, False)):
         made = []
         qargs = []
-        queries[with_pivot] = qargs
+        queries[(with_pivot, ordered)] = qargs
 
         def on_call(fname, fval, recv, args, kwargs, ex, node):
             f = str(fname).split('.')[-1]
@@ -376,7 +376,7 @@ def rule_pivotflow(P) -> RuleResult:
             if f == '_compile_group_by':
                 return T('tuple', (SList([]), SList([0, 1]), None))
             if f == '_compile_order_by':
-                return T('tuple', (SList([]), Sym('ORDER_SPEC')))
+                return T('tuple', (SList([]), Sym('ORDER_SPEC') if ordered else None))
             if f == '_compile_pivot_by':
                 return SList([FIRST, SECOND]) if with_pivot else None
             if f == 'EvalQuery':
@@ -423,15 +423,16 @@ def rule_pivotflow(P) -> RuleResult:
             raise AnalysisError(f'{fi.fq}: no returning path on terms')
     # the query that is pivoted is the query the statement is without PIVOT BY: same table, targets, condition, grouping, ORDER BY
     # specification, LIMIT and DISTINCT (ORDER BY and LIMIT decide which rows there are to reshape)
-    a, b = queries[True], queries[False]
-    if a and b and repr(a[-1]) != repr(b[-1]):
+    for ordered in (True, False):
+      a, b = queries[(True, ordered)], queries[(False, ordered)]
+      if a and b and repr(a[-1]) != repr(b[-1]):
         diff = [i for i, (x, y) in enumerate(zip(a[-1], b[-1])) if repr(x) != repr(y)]
         names = ['table', 'targets', 'condition', 'group indexes', 'HAVING index', 'ORDER BY specification', 'LIMIT', 'DISTINCT']
         res.fail(fi.fq, 'pivotflow:query', f'with PIVOT BY the compiled query differs from the one compiled without it in its '
                  f'{", ".join(names[i] if i < len(names) else "argument " + str(i) for i in diff) or "arguments"}: the pivot reshapes other rows than '
-                 f'the un-pivoted statement returns', loc(fi))
-    elif a and b:
-        res.ok({'pivoted_query': 'the same EvalQuery arguments as without PIVOT BY'})
+                 f'the un-pivoted statement returns ({"with" if ordered else "without"} ORDER BY)', loc(fi))
+      elif a and b:
+        res.ok({'pivoted_query': 'the same EvalQuery arguments as without PIVOT BY', 'order_by': 'present' if ordered else 'absent'})
     return res
 
 
